@@ -80,7 +80,15 @@ type c01In struct {
 	// and meet inside the chain client's Send, which answers them in the order Release (handler numbers)
 	Extra   []c01Bid `json:",omitempty"`
 	Release []int    `json:",omitempty"`
+	// class raw-tx of C07 (zz_verif_c07tx_test.go, present only in C07's overlay set): its own input, opaque here
+	Tx json.RawMessage `json:",omitempty"`
 }
+
+// hooks filled in by zz_verif_c07tx_test.go when that file is part of the overlay set
+var (
+	c07TxGen func(r *rand.Rand) json.RawMessage
+	c07TxRunRaw func(t testing.TB, raw json.RawMessage) (obs interface{}, coq func(id int) string)
+)
 
 // ---- observations -----------------------------------------------------------------------------------
 
@@ -1215,7 +1223,18 @@ func c01Main(t *testing.T, classes []string, reps int, timed int, e2e int, c07 b
 				jobs = append(jobs, job{c, c01Generate(e.rng, c)})
 			}
 		}
+		// drawn last: the inputs of the classes above do not change for a given seed
+		if c07 && c07TxGen != nil {
+			for i := 0; i < e.N*reps; i++ {
+				jobs = append(jobs, job{"raw-tx", c01In{Tx: c07TxGen(e.rng)}})
+			}
+		}
 	}
+	type txResult struct {
+		obs interface{}
+		coq func(id int) string
+	}
+	txResults := make([]txResult, len(jobs))
 	// handlers of different cases are independent: run them in parallel, emit in input order
 	results := make([]c01Obs, len(jobs))
 	skipped := make([]bool, len(jobs))
@@ -1230,6 +1249,15 @@ func c01Main(t *testing.T, classes []string, reps int, timed int, e2e int, c07 b
 			defer func() { <-sem }()
 			if hangs.Load() >= 5 { // a broken tree: do not wait out the limit of every remaining case
 				skipped[i] = true
+				return
+			}
+			if jobs[i].in.Tx != nil {
+				if c07TxRunRaw == nil {
+					skipped[i] = true
+					return
+				}
+				o, f := c07TxRunRaw(t, jobs[i].in.Tx)
+				txResults[i] = txResult{o, f}
 				return
 			}
 			results[i] = c01Run(t, jobs[i].in, e.Slow)
@@ -1260,6 +1288,14 @@ func c01Main(t *testing.T, classes []string, reps int, timed int, e2e int, c07 b
 		}
 		obs := results[i]
 		in := j.in
+		if in.Tx != nil {
+			e.Emit(j.class, in, txResults[i].obs, txResults[i].coq)
+			continue
+		}
+		if c07 { // Check_C07.case is a sum: handler-level cases | raw-tx cases
+			e.Emit(j.class, in, obs, func(id int) string { return "(CBase " + c01Coq(id, in, obs) + ")" })
+			continue
+		}
 		e.Emit(j.class, in, obs, func(id int) string { return c01Coq(id, in, obs) })
 	}
 }
